@@ -54,13 +54,33 @@ func init() {
 			if len(vis) == 0 {
 				continue
 			}
+			// the flush may have been moved into a same-package helper called from here
+			var hsite *Site
+			if flush == nil {
+				for i := range ss {
+					g := ss[i].Callee
+					if g == nil {
+						continue
+					}
+					g = canonGeneric(g)
+					if pkgRelOf(g) != pkgRelOf(ex) || len(g.Blocks) == 0 {
+						continue
+					}
+					for _, hs := range sitesOf(g) {
+						if hs.Method != nil && hs.Method.Name() == "Flush" && hsite == nil {
+							hs := hs
+							flush, hsite = &hs, &ss[i]
+						}
+					}
+				}
+			}
 			nExec++
 			_ = nExec
 			c.saw(qname(ex))
 			if !p.InFixture(fnPos(ex)) {
 				visible = append(visible, vis...)
 			}
-			c13FlushRule(c, ex, flush, vis)
+			c13FlushRule(c, ex, flush, hsite, vis)
 		}
 		if len(visible) < 4 {
 			c.und("flush-before-visible", "Driver.execute:visible", "", fmt.Sprintf("only %d visible effects found (expected 3 broadcasts + commit)", len(visible)))
@@ -426,28 +446,84 @@ func c13ReplayDeterminism(c *Ctx) {
 	}
 }
 
-func c13FlushRule(c *Ctx, ex *ssa.Function, flush *Site, visible []Site) {
-	p := c.P
-		if flush == nil {
-		c.viol("flush-before-visible", qname(ex)+":flush", p.Pos(fnPos(ex)), qname(ex)+" never flushes the WAL")
-	} else {
-		// skip edges: isReplaying true, or RequiresWALFlush() false
-		skip := map[[2]int]bool{}
-		var flushRecv ssa.Value
-		for _, b := range ex.Blocks {
-			iff, ok := b.Instrs[len(b.Instrs)-1].(*ssa.If)
-			if !ok {
-				continue
-			}
-			t := term(iff.Cond)
-			if t == "isReplaying" {
-				skip[[2]int{b.Index, b.Succs[0].Index}] = true
-			}
-			if call, ok := iff.Cond.(*ssa.Call); ok && call.Call.IsInvoke() && call.Call.Method.Name() == "RequiresWALFlush" {
-				skip[[2]int{b.Index, b.Succs[1].Index}] = true
-				flushRecv = call.Call.Value
+// c13SkipEdges: the edges of fn on which the flush may legitimately be skipped
+// (isReplaying true, RequiresWALFlush() false) and the value asked RequiresWALFlush.
+func c13SkipEdges(fn *ssa.Function, isRep func(ssa.Value) bool) (map[[2]int]bool, ssa.Value) {
+	skip := map[[2]int]bool{}
+	var flushRecv ssa.Value
+	for _, b := range fn.Blocks {
+		iff, ok := b.Instrs[len(b.Instrs)-1].(*ssa.If)
+		if !ok {
+			continue
+		}
+		if isRep(iff.Cond) {
+			skip[[2]int{b.Index, b.Succs[0].Index}] = true
+		}
+		if call, ok := iff.Cond.(*ssa.Call); ok && call.Call.IsInvoke() && call.Call.Method.Name() == "RequiresWALFlush" {
+			skip[[2]int{b.Index, b.Succs[1].Index}] = true
+			flushRecv = call.Call.Value
+		}
+	}
+	return skip, flushRecv
+}
+
+func resultTestedForNil(in ssa.Instruction) bool {
+	v, ok := in.(ssa.Value)
+	if !ok {
+		return false
+	}
+	if refs := v.Referrers(); refs != nil {
+		for _, r := range *refs {
+			if b, ok := r.(*ssa.BinOp); ok && (isNilConst(b.X) || isNilConst(b.Y)) {
+				return true
 			}
 		}
+	}
+	return false
+}
+
+// hsite != nil: the flush lives in the same-package helper called at hsite; the
+// helper is checked with the same skip rule (its early returns may only be
+// taken when replaying or when the action needs no flush), and in ex the
+// helper call then plays the part of the flush.
+func c13FlushRule(c *Ctx, ex *ssa.Function, flush *Site, hsite *Site, visible []Site) {
+	p := c.P
+	if flush == nil {
+		c.viol("flush-before-visible", qname(ex)+":flush", p.Pos(fnPos(ex)), qname(ex)+" never flushes the WAL")
+	} else {
+		skip, flushRecv := c13SkipEdges(ex, func(v ssa.Value) bool { return term(v) == "isReplaying" })
+		realFlush := flush
+		if hsite != nil {
+			h := canonGeneric(hsite.Callee)
+			hskip, hrecv := c13SkipEdges(h, func(v ssa.Value) bool {
+				for i, prm := range h.Params {
+					if ssa.Value(prm) == v && i < len(hsite.Args()) {
+						return term(hsite.Args()[i]) == "isReplaying"
+					}
+				}
+				return false
+			})
+			for i, prm := range h.Params {
+				if hrecv != nil && ssa.Value(prm) == hrecv && i < len(hsite.Args()) {
+					flushRecv = hsite.Args()[i]
+					if mi, ok := flushRecv.(*ssa.MakeInterface); ok {
+						flushRecv = mi.X
+					}
+				}
+			}
+			bypassH := false
+			for _, r := range returnsOf(h) {
+				if r.Block != flush.Block() && !flush.Block().Dominates(r.Block) && reachableAvoiding(h, r.Block, flush.Block(), hskip) {
+					bypassH = true
+				}
+			}
+			c.check(!bypassH, "flush-before-visible", qname(ex)+" → "+qname(h)+":helper", p.Pos(flush.Pos()),
+				"the flush helper returns without flushing only when replaying / the action needs no flush",
+				"the flush helper can return without d.db.Flush() other than via isReplaying / !RequiresWALFlush()")
+			c.check(resultTestedForNil(flush.Instr), "flush-before-visible", qname(h)+":flush-error", p.Pos(flush.Pos()), "flush error is tested", "the error of d.db.Flush() is ignored: a failed flush would still let the action out")
+			flush = hsite
+		}
+		_ = realFlush
 		// the flush error must be checked: the block after flush on err != nil returns
 		for _, v := range visible {
 			construct := qname(ex)+" → " + v.CalleeName()
@@ -472,16 +548,7 @@ func c13FlushRule(c *Ctx, ex *ssa.Function, flush *Site, visible []Site) {
 		c.check(blocksFrom(flush.Block(), nil)[flush.Block()], "flush-before-visible", qname(ex)+":flush-per-action", p.Pos(flush.Pos()),
 			"the flush is evaluated per action (inside the loop), i.e. after the WriteWAL entries that precede the action in the list", "the WAL flush is not inside the per-action loop: WriteWAL entries of the same batch would still be buffered when later actions become visible")
 		// flush error returns
-		fs := false
-		if v, ok := flush.Instr.(ssa.Value); ok {
-			if refs := v.Referrers(); refs != nil {
-				for _, r := range *refs {
-					if b, ok := r.(*ssa.BinOp); ok && (isNilConst(b.X) || isNilConst(b.Y)) {
-						fs = true
-					}
-				}
-			}
-		}
+		fs := resultTestedForNil(flush.Instr)
 		c.check(fs, "flush-before-visible", qname(ex)+":flush-error", p.Pos(flush.Pos()), "flush error is tested", "the error of d.db.Flush() is ignored: a failed flush would still let the action out")
 	}
 }
